@@ -51,6 +51,7 @@ type c13Run struct {
 	// why each document left the user's view (the world event that did it) and whether it was written again since
 	lostBy        map[string]string
 	rewrittenLost map[string]bool
+	regrantSince  map[string]bool // a grant event happened after the document left the view
 }
 
 type c13Env struct {
@@ -297,6 +298,12 @@ func (r *c13Run) pull(limit int) map[string]string {
 			// root cause class: which kind of event took the document out of the user's view; a deleted role is its own class
 			// (the role's channel history is gone with it), with the two ways it shows: the document was written again after
 			// the loss, or the revocations had to be paged
+			if lb := r.lostBy[id]; strings.HasPrefix(lb, "d") && r.regrantSince[id] {
+				// the document was deleted (or moved out) and, before the client pulled, a channel was granted again:
+				// the request then back-fills that channel from the start and a back-fill does not carry deletions / removals
+				viol["C13/client-keeps-document-deleted-or-moved-before-a-channel-was-granted-again"] = fmt.Sprintf("after pull %d the client still holds %s, which was %s and has had no removal, deletion or revocation notice since; a channel was granted (again) between that and the pull; user can see %v; history %v", r.pullN, id, lb, want, r.hist)
+				continue
+			}
 			if r.lostBy[id] == "r:del" {
 				kind := "paged-revocation"
 				if r.rewrittenLost[id] {
@@ -407,18 +414,25 @@ func (e *c13Env) run(t testing.TB, r *vreport.Report, hist []string) {
 		visBefore := run.visible()
 		err := run.world(sym)
 		if run.lostBy == nil {
-			run.lostBy, run.rewrittenLost = map[string]string{}, map[string]bool{}
+			run.lostBy, run.rewrittenLost, run.regrantSince = map[string]string{}, map[string]bool{}, map[string]bool{}
+		}
+		if sym == "u:A" || sym == "u+r" || sym == "r:B" || strings.HasPrefix(sym, "g:u") || strings.HasPrefix(sym, "g:r") {
+			for id := range run.lostBy {
+				run.regrantSince[id] = true
+			}
 		}
 		visAfter := run.visible()
 		for id := range visBefore {
 			if _, still := visAfter[id]; !still {
 				run.lostBy[id] = sym
 				run.rewrittenLost[id] = false
+				run.regrantSince[id] = false
 			}
 		}
 		for id := range visAfter {
 			delete(run.lostBy, id)
 			delete(run.rewrittenLost, id)
+			delete(run.regrantSince, id)
 		}
 		if strings.HasPrefix(sym, "d") {
 			if id := sym[:strings.Index(sym, ":")]; run.lostBy[id] != "" && run.lostBy[id] != sym {
